@@ -437,6 +437,12 @@ def run(rep, tier):
     c13_audit.end_position_rule(rep, us["proto/radius.h"])
     c13_audit.chunk_end_rule(rep, us["src/proto/http.c"])
     rep.floor("pointer cursor/limit obligations (dns.h)", c13_audit.cursor_limit_rule(rep, us["proto/dns.h"]), 8)
+    rep.floor("validator bounds against name tables", c13_audit.table_bound_rule(rep, us["proto/dhcpv4.h"]), 1)
+    nw = 0
+    for lab_, u_ in us.items():
+        nw += c13_audit.offset_wrap_rule(rep, u_, lab_ if lab_.startswith("src/") else "include/" + lab_)
+    rep.floor("differences of unsigned parameters in bound tests", nw, 1)
+    rep.floor("stores of the copy-and-convert routines", c13_audit.output_only_rule(rep, us["src/proto/http.c"]), 2)
     usap = driver.load_units([common.src_unit("src/proto/sap_rcvr.c")])["src/proto/sap_rcvr.c"]
     rep.floor("terminated receive buffers", c13_audit.terminator_room_rule(rep, usap, "src/proto/sap_rcvr.c"), 1)
     # request line: the components returned are sub-spans of the target (rule lives in C20)
